@@ -73,10 +73,30 @@ def run(prog, R):
                 fsuse[inventory.ishort(f)].add(c.split("::")[-1])
             elif any(x in c for x in DENY):
                 bad.append((inventory.ishort(f), c))
+    # type-based form of the hash-iteration rule: any iteration-like call whose receiver/argument type is a hash
+    # container or one of its iterators (std or hashbrown), whatever the method is called
+    ITER_METHODS = ("iter", "iter_mut", "into_iter", "keys", "values", "values_mut", "into_keys", "into_values", "drain", "retain", "next", "for_each", "fold", "collect", "extend", "difference", "union", "intersection", "symmetric_difference")
+    HASHY = ("HashMap<", "HashSet<", "hash_map::", "hash_set::", "hashbrown::map::", "hashbrown::set::", "hashbrown::raw::")
+    for f in cone:
+        if "print" in f or "report_error" in f:
+            continue
+        b_ = prog.body(f)
+        if b_ is None:
+            continue
+        for bi, t in b_.calls():
+            c = b_.callee_of(t) or ""
+            tys = [x if isinstance(x, str) else json.dumps(x) for x in (t.get("argtys") or [])]
+            if tys and any(h in tys[0] for h in HASHY):
+                R.count("hash container call sites seen by the type matcher")
+            if c.split("::")[-1] in ITER_METHODS and tys and any(h in tys[0] for h in HASHY):
+                bad.append((inventory.ishort(f), c.split(" as ")[0][-60:] + "::" + c.split("::")[-1] + " on " + tys[0][:60]))
+    R.floor("positive control: hash container call sites (get/insert/contains_key) matched by receiver type", R.counters.get("hash container call sites seen by the type matcher", 0), 3)
     R.ob("C17.3-determinism", "no hash iteration / clock / thread / rng in the analysis cone", not bad, "", f"{len(cone)} functions; offending {bad[:4]}")
     ok_fs = set(fsuse) <= {"source_file::source_file::resolve_file_path", "source_file::source_file::resolve_file_path::{closure#0}", "source_file::source_file::get_file_search_paths_from_env", "source_file::source_file::get_file_search_paths_from_env::{closure#0}",
                            "source_file::source_file::read_source_file", "source_file::source_file::parse_included_files::parse_one_included", "source_file::source_file::SourceFile::new"}
     R.ob("C17.3-determinism", "file-system / environment reads only in the include resolver", ok_fs and bool(fsuse), "", f"{ {k: sorted(v) for k, v in fsuse.items()} }")
+    R.premises(prog, "C17.1-lexer-layout-premise", ["C10:C10.1-", "C15:C15.5-", "C15:C15.3-"],
+               "whether a blank may be inserted between two lexemes without changing the tokens rests on the lexer's tables: number + unit splitting (unit tables agree), trivia / jointness handling, numeric suffix protocol")
     # ---- C17.4 append only, one pass
     for adt, fld in (("oq3_semantics::asg::Program", "stmts"), ("oq3_semantics::semantic_error::SemanticErrorList", "list"), ("oq3_semantics::semantic_error::SemanticErrorList", "include_errors")):
         if adt not in prog.adts:
